@@ -20,13 +20,19 @@ package c19
 //   meta l                            bank metadata exists for the aliased voucher of channel l (what the transfer
 //                                     module's InitGenesis / MigrateDenomMetadata write for every denom trace)
 //   fund a tok l amt                  tok F|N|U: bank coins; A: ERC-20 of the aliased base token + voucher liquidity on l
-//   recv l tok kind to amt memo snd   inbound packet (tok F|N|U returning home, V|X|A vouchers; kind hex|bech|bad)
+//   recv l tok kind to amt memo snd   inbound packet (tok F|N|U returning home, V|X|A vouchers; kind hex|bech|bad);
+//                                     W: a FOREIGN coin whose base denom is NAMED like the chain's own (packet denom `FX`),
+//                                     its voucher has an ERC-20 pair; Y: base denom FX over ANOTHER route (multi-hop
+//                                     packet denom `transfer/channel-<r+1>/FX` from source channel r), not registered;
+//                                     Z: a multi-hop voucher (`transfer/channel-<r+1>/ubi`) with an ERC-20 pair
 //   send l a tok amt                  EVM-started transfer through the precompile (tok F|A|N)
 //   csend l a tok amt                 cosmos-side MsgTransfer (tok F|N|U)
 //   ack l seq <shape>  /  timeout l seq     shape = the acknowledgement AS IT IS ON THE WIRE: ok (result with content),
 //                                     okempty (result without), err (error with a reason), errempty (error with an EMPTY
-//                                     reason), unset (neither arm), bad (bytes the codec rejects); what the shape MEANS
-//                                     is decided by decoding the bytes with the real codec, never by the harness
+//                                     reason), unset (neither arm), bad (bytes the codec rejects), ncerr / ncok (an error /
+//                                     result acknowledgement in a NON-CANONICAL spelling: whitespace, escapes), ncboth
+//                                     (BOTH arms of the oneof); what the shape MEANS is decided by decoding the bytes with
+//                                     the real codec (and re-marshalling them), never by the harness
 //
 // Two ways of playing IBC core, drawn per sequence (same op lines, same model):
 //   mimic  the callbacks are called directly (cache committed only on a successful acknowledgement, commitment deleted
@@ -137,7 +143,12 @@ type chanT struct {
 	vA     string // voucher of the aliased token on this channel (alias of baseA)
 	vV     string // voucher with its own ERC-20 pair
 	vX     string // unregistered voucher
+	vW     string // voucher of a foreign coin NAMED like the chain's own coin (trace transfer/<id>/FX), own ERC-20 pair
+	vY     string // FX over another route (trace transfer/<id>/transfer/channel-<r+1>/FX), unregistered
+	vZ     string // multi-hop voucher (trace transfer/<id>/transfer/channel-<r+1>/ubi), own ERC-20 pair
 	ercV   common.Address
+	ercW   common.Address
+	ercZ   common.Address
 	meta   bool
 }
 
@@ -248,6 +259,8 @@ func (e *env) checkLedger(after string) {
 	chk("the native coin's token", e.ercNat, natD)
 	for _, l := range e.order {
 		chk(fmt.Sprintf("the voucher token of channel %d", l), e.chans[l].ercV, e.chans[l].vV)
+		chk(fmt.Sprintf("the token of the FX-named foreign coin of channel %d", l), e.chans[l].ercW, e.chans[l].vW)
+		chk(fmt.Sprintf("the multi-hop voucher token of channel %d", l), e.chans[l].ercZ, e.chans[l].vZ)
 	}
 }
 
@@ -268,6 +281,8 @@ func (e *env) holdings(a common.Address) map[string]int64 {
 	m["erc:nat"] = e.ercOf(e.ercNat, a)
 	for _, l := range e.order {
 		m[fmt.Sprintf("erc:v%d", l)] = e.ercOf(e.chans[l].ercV, a)
+		m[fmt.Sprintf("erc:w%d", l)] = e.ercOf(e.chans[l].ercW, a)
+		m[fmt.Sprintf("erc:z%d", l)] = e.ercOf(e.chans[l].ercZ, a)
 	}
 	return m
 }
@@ -444,6 +459,9 @@ func (e *env) setup(ls, cps []int) {
 		s.App.IBCKeeper.ChannelKeeper.SetChannel(s.Ctx, port, id, c)
 		s.App.IBCKeeper.ChannelKeeper.SetNextSequenceSend(s.Ctx, port, id, 1)
 		ch.vA, ch.vV, ch.vX = voucher(l, remoteA), voucher(l, remoteV), voucher(l, remoteX)
+		ch.vW = voucher(l, fxtypes.DefaultDenom)
+		ch.vY = voucher(l, fmt.Sprintf("%s/channel-%d/%s", port, ch.r+1, fxtypes.DefaultDenom))
+		ch.vZ = voucher(l, fmt.Sprintf("%s/channel-%d/%s", port, ch.r+1, remoteV))
 		s.App.IBCTransferKeeper.SetDenomTrace(s.Ctx, transfertypes.ParseDenomTrace(fmt.Sprintf("%s/%s/%s", port, id, remoteA)))
 		aliases = append(aliases, ch.vA)
 		e.chans[l] = ch
@@ -457,6 +475,8 @@ func (e *env) setup(ls, cps []int) {
 	e.ercNat = s.AddTokenPair(natD, true)
 	for _, l := range e.order {
 		e.chans[l].ercV = s.AddTokenPair(e.chans[l].vV, true)
+		e.chans[l].ercW = s.AddTokenPair(e.chans[l].vW, true)
+		e.chans[l].ercZ = s.AddTokenPair(e.chans[l].vZ, true)
 	}
 	// every address a memo call can be made from here must exist as an account (CallEVM reads its sequence)
 	nums := map[int]bool{}
@@ -573,6 +593,12 @@ func bankDenom(tok string, ch *chanT) string {
 		return ch.vV
 	case "X":
 		return ch.vX
+	case "W":
+		return ch.vW
+	case "Y":
+		return ch.vY
+	case "Z":
+		return ch.vZ
 	}
 	return ""
 }
@@ -585,6 +611,10 @@ func (e *env) ercToken(tok string, ch *chanT) common.Address {
 		return e.ercBase
 	case "V":
 		return ch.ercV
+	case "W":
+		return ch.ercW
+	case "Z":
+		return ch.ercZ
 	}
 	return common.Address{}
 }
@@ -598,6 +628,10 @@ func pairDenom(tok string, ch *chanT) string {
 		return natD
 	case "V":
 		return ch.vV
+	case "W":
+		return ch.vW
+	case "Z":
+		return ch.vZ
 	}
 	return ""
 }
@@ -710,6 +744,12 @@ func (e *env) recv(l int, tok, rk string, to int, amt int64, memo string, snd in
 		pd = remoteV
 	case "X":
 		pd = remoteX
+	case "W": // the counterparty's OWN coin, which happens to be called like ours
+		pd = fxtypes.DefaultDenom
+	case "Y": // FX (by name) that reached the counterparty over another of ITS channels: one more hop
+		pd = fmt.Sprintf("%s/channel-%d/%s", port, ch.r+1, fxtypes.DefaultDenom)
+	case "Z":
+		pd = fmt.Sprintf("%s/channel-%d/%s", port, ch.r+1, remoteV)
 	}
 	den := bankDenom(tok, ch)
 	sender := e.senderString(snd)
@@ -743,6 +783,7 @@ func (e *env) recv(l int, tok, rk string, to int, amt int64, memo string, snd in
 	rel0 := e.relSet()
 	saved := s.Ctx
 	cctx, write := saved.CacheContext()
+	cctx = cctx.WithEventManager(sdk.NewEventManager()) // the hook reports the coin it believes it received in an event
 	ackS := "err"
 	var res string
 	if e.core {
@@ -788,13 +829,14 @@ func (e *env) recv(l int, tok, rk string, to int, amt int64, memo string, snd in
 		esc = e.bal(transfertypes.GetEscrowAddress(port, ch.id), den)
 	}
 	tm := int64(0)
-	if tok == "A" || tok == "V" || tok == "X" {
+	if tok == "A" || tok == "V" || tok == "X" || tok == "W" || tok == "Y" || tok == "Z" {
 		tm = e.bal(e.modAddr(transfertypes.ModuleName), den)
 	}
 	e.out.Emit(fmt.Sprintf("recv %d %s %s %d %d %s %d", l, tok, rk, to, amt, memo, snd),
 		fmt.Sprintf("ack=%s bk=%d e=%d esc=%d tm=%d sup=%d m=%d cs=%s", ackS, e.bal(a.Bytes(), den), e.ercOf(e.ercToken(tok, ch), a), esc, tm, e.supplyOf(e.ercToken(tok, ch)), e.marker(), e.callerLabel()))
 	e.checkLedger("recv")
 	e.out.Count("recv:" + tok + ":" + rk + ":" + memo + ":" + ackS)
+	e.out.Count(fmt.Sprintf("recv-denom:hops=%d:base-named-like-native=%v", strings.Count(pd, "/")/2, transfertypes.ParseDenomTrace(pd).BaseDenom == fxtypes.DefaultDenom))
 	e.out.Count(fmt.Sprintf("recv-channel:local%s", map[bool]string{true: "=", false: "!="}[ch.l == ch.r]+"counterparty"))
 	e.out.Nontrivial("recv|" + tok + "|" + rk + "|" + memo + "|" + ackS)
 
@@ -815,6 +857,10 @@ func (e *env) recv(l int, tok, rk string, to int, amt int64, memo string, snd in
 				want["erc:base"] = amt
 			case "V":
 				want[fmt.Sprintf("erc:v%d", l)] = amt
+			case "W":
+				want[fmt.Sprintf("erc:w%d", l)] = amt
+			case "Z":
+				want[fmt.Sprintf("erc:z%d", l)] = amt
 			default:
 				want["erc:<no ERC-20 token exists for this coin>"] = amt
 			}
@@ -830,6 +876,35 @@ func (e *env) recv(l int, tok, rk string, to int, amt int64, memo string, snd in
 	}
 	if !relFrame(rel0, e.relSet(), "", "") {
 		e.out.Violate("recv: an inbound packet changed the tracking records of outbound transfers")
+	}
+	// the denomination the middleware BELIEVES it received (its `receive` event, emitted right after parseIBCCoinDenom;
+	// real IBC core re-emits the events of a failed callback under a prefixed type) is the one the application credited
+	hookDenom := ""
+	for _, ev := range cctx.EventManager().Events() {
+		if strings.HasSuffix(ev.Type, ibcmwtypes.EventTypeReceive) {
+			for _, at := range ev.Attributes {
+				if strings.HasSuffix(at.Key, transfertypes.AttributeKeyAmount) { // real core prefixes type AND keys of a failed callback's events
+					if c, err := sdk.ParseCoinNormalized(at.Value); err == nil {
+						hookDenom = c.Denom
+					}
+				}
+			}
+		}
+	}
+	switch {
+	case hookDenom == "":
+		e.out.Count(fmt.Sprintf("recv-hook-denom:hook-not-reached:ack=%s:core=%v:receiver=%s:amount-zero=%v", ackS, e.core, rk, amt == 0))
+	case hookDenom == den:
+		e.out.Count("recv-hook-denom:same-as-credited")
+	default:
+		e.out.Count("recv-hook-denom:DIFFERENT")
+		short := func(d string) string {
+			if len(d) > 12 {
+				return d[:12]
+			}
+			return d
+		}
+		e.out.Violate(fmt.Sprintf("recv: the middleware took the received coin for `%s` while the transfer application credited `%s` (packet denom %s, ack=%s, %s)", short(hookDenom), short(den), pd, ackS, class))
 	}
 	// nobody who did not sign loses anything through an inbound packet: the only account an inbound packet debits is the
 	// channel's escrow account
@@ -1044,16 +1119,27 @@ func (e *env) ackBytes(shape string) []byte {
 		return []byte(`{"error":""}`)
 	case "unset":
 		return []byte(`{}`)
+	// bytes that DECODE but are not what the decoded acknowledgement marshals to
+	case "ncerr":
+		return pick(`{"error": "rejected"}`, `{ "error":"x"}`, `{"error":"\u0078"}`, "{\"error\":\"rejected\"}\n", `{"error":"rejected" }`)
+	case "ncok":
+		return pick(`{"result": "AQ=="}`, `{"result":"AQ==" }`, "\t{\"result\":\"AQ==\"}", `{"result":"AQ\u003d\u003d"}`)
+	case "ncboth":
+		return pick(`{"result":"AQ==","error":"rejected"}`, `{"error":"rejected","result":"AQ=="}`, `{"error":"","result":"AQ=="}`, `{"result":"","error":"x"}`)
 	}
-	return pick(`not json`, `{"foo":"bar"}`, `[]`, `{"error":`)
+	return pick(`not json`, `{"foo":"bar"}`, `[]`, `{"error":`, `{"result":"AQ==","foo":1}`)
 }
 
-// ackClass: what the bytes ARE, by the real codec: "err" (error arm, whatever the text), "ok" (anything else that
-// decodes), "bad" (rejected by the codec)
+// ackClass: what the bytes ARE, by the real codec: "bad" (rejected by the codec), "nc" (they decode, but the decoded
+// acknowledgement marshals to other bytes: not the canonical encoding), "err" (error arm, whatever the text), "ok"
+// (anything else that decodes)
 func ackClass(raw []byte) string {
 	var ack channeltypes.Acknowledgement
 	if err := transfertypes.ModuleCdc.UnmarshalJSON(raw, &ack); err != nil {
 		return "bad"
+	}
+	if !bytes.Equal(ack.Acknowledgement(), raw) {
+		return "nc"
 	}
 	if _, isErr := ack.Response.(*channeltypes.Acknowledgement_Error); isErr {
 		return "err"
@@ -1172,7 +1258,7 @@ func (e *env) settle(l int, seq uint64, mode string) {
 			e.violate("ack-both-arms-nondeterministic", fmt.Sprintf("ack: an acknowledgement carrying BOTH a result and an error is settled differently from one relay of the same bytes on the same state to the next (tok=%s evm=%v): %s", st.tok, st.evm, strings.Join(os, " | ")))
 		}
 	}
-	if class != "ok" && class != "bad" && st.evm && st.tok == "A" && e.convertible("A", ch) && e.rng.Intn(5) == 0 {
+	if (class == "err" || class == "timeout") && st.evm && st.tok == "A" && e.convertible("A", ch) && e.rng.Intn(5) == 0 {
 		// the chain is restarted from an exported genesis while the transfer is in flight (monitor only, throw-away branch):
 		// the erc20 module's state is replaced by InitGenesis(ExportGenesis()), then the same relay arrives.  IBC core exports
 		// its packet commitments, so the packet is still refundable — in ERC-20 form only if the tracking record travelled too
@@ -1215,6 +1301,17 @@ func (e *env) settle(l int, seq uint64, mode string) {
 		case class == "bad":
 			// bytes the codec rejects: the transfer application cannot process them, on any chain
 			e.out.Count("settle:stuck:undecodable-acknowledgement")
+		case class == "nc":
+			// not the canonical encoding: rejected before anything acts on it; the transfer stays in flight and a proper
+			// acknowledgement or the timeout still settles it (checked by the ordinary monitors of that later relay)
+			e.out.Count("settle:stuck:non-canonical-acknowledgement:" + mode)
+			if _, ds := delta(h0, e.holdings(a)); ds != "" || !relFrame(rel0, e.relSet(), "", "") {
+				e.out.Violate(fmt.Sprintf("settle: a rejected NON-CANONICAL acknowledgement changed the sender's holdings by [%s] / the tracking records %s -> %s (%s)", ds, e.relStr(rel0), e.rel(), clsTxt))
+			}
+			if e.rng.Intn(2) == 0 {
+				e.out.Count("settle:after-non-canonical:proper-relay")
+				e.settle(l, seq, []string{"timeout", "err", "ok", "errempty"}[e.rng.Intn(4)])
+			}
 		case class == "ok":
 			e.out.Violate(fmt.Sprintf("settle: the callback of a SUCCESS acknowledgement failed (%s): %s", clsTxt, firstWords(res)))
 		case st.tok != "A" && e.bal(transfertypes.GetEscrowAddress(port, ch.id), den) < st.amt:
@@ -1233,6 +1330,10 @@ func (e *env) settle(l int, seq uint64, mode string) {
 	write()
 	if class == "bad" {
 		e.out.Violate(fmt.Sprintf("settle: an acknowledgement the codec rejects was processed (%s)", clsTxt))
+	}
+	if class == "nc" {
+		_, ds := delta(h0, e.holdings(a))
+		e.out.Violate(fmt.Sprintf("settle: an acknowledgement in a NON-CANONICAL encoding (%s: %s) was processed instead of being rejected: sender's holdings changed by [%s], tracking records %s -> %s (%s)", mode, firstWords(string(raw)), ds, e.relStr(rel0), e.rel(), clsTxt))
 	}
 	if s.App.IBCKeeper.ChannelKeeper.HasPacketCommitment(s.Ctx, port, ch.id, seq) {
 		e.out.Violate(fmt.Sprintf("core: the packet commitment survived a processed %s", op))
@@ -1253,11 +1354,15 @@ func (e *env) settle(l int, seq uint64, mode string) {
 	e.out.Count("settle-channel:" + map[bool]string{true: "local==counterparty", false: "local!=counterparty"}[ch.l == ch.r])
 	e.out.Nontrivial(fmt.Sprintf("settle|%s|%s|evm=%v|core=%v", mode, st.tok, st.evm, e.core))
 
+	if class == "nc" {
+		return
+	}
 	// ---- monitors -------------------------------------------------------------------------------------------
 	own := e.relKey(l, seq)
 	after := e.relSet()
 	modeTxt := map[string]string{"ok": "a success acknowledgement", "okempty": "a result acknowledgement without content", "unset": "an acknowledgement with neither result nor error",
-		"err": "an error acknowledgement", "errempty": "an error acknowledgement with an EMPTY reason", "timeout": "a timeout", "bad": "undecodable bytes"}[mode]
+		"err": "an error acknowledgement", "errempty": "an error acknowledgement with an EMPTY reason", "timeout": "a timeout", "bad": "undecodable bytes",
+		"ncerr": "a non-canonical error acknowledgement", "ncok": "a non-canonical result acknowledgement", "ncboth": "an acknowledgement with both arms"}[mode]
 	if after[own] {
 		e.out.Violate(fmt.Sprintf("relation: tracking record of an EVM-originated transfer is kept after %s (local channel %d != counterparty channel %d: %v, %s)", modeTxt, ch.l, ch.r, ch.l != ch.r, clsTxt))
 	}
@@ -1406,7 +1511,7 @@ func (e *env) generate(nops int) {
 	rng, out := e.rng, e.out
 	memos := []string{"none", "junk", "callok", "callrev", "callok", "callpay"}
 	// acknowledgements as they are on the wire: mostly what an ibc-go counterparty writes, else every other shape
-	shapes := []string{"ok", "err", "timeout", "ok", "err", "timeout", "errempty", "errempty", "okempty", "unset", "bad"}
+	shapes := []string{"ok", "err", "timeout", "ok", "err", "timeout", "errempty", "errempty", "okempty", "unset", "bad", "ncerr", "ncok", "ncboth", "ncboth"}
 	shape := func() string { return shapes[rng.Intn(len(shapes))] }
 	// what stands in the packet's sender field: mostly a remote string; else the hex / bech32 address of a funded local
 	// account, of the erc20 module account, of a contract
@@ -1448,9 +1553,9 @@ func (e *env) generate(nops int) {
 				e.send(l, from, tok, amt, false)
 			} else {
 				// every token class through the precompile: only the aliased token and FX can leave that way
-				tok := []string{"A", "A", "A", "A", "F", "F", "N", "A", "A", "V", "U", "X", "N", "V"}[rng.Intn(14)]
-				if tok == "V" {
-					if have := e.ercOf(e.chans[l].ercV, e.addr(from)); have > 0 && rng.Intn(3) != 0 {
+				tok := []string{"A", "A", "A", "A", "F", "F", "N", "A", "A", "V", "U", "X", "N", "V", "W", "Z", "Y"}[rng.Intn(17)]
+				if tok == "V" || tok == "W" || tok == "Z" {
+					if have := e.ercOf(e.ercToken(tok, e.chans[l]), e.addr(from)); have > 0 && rng.Intn(3) != 0 {
 						amt = 1 + rng.Int63n(have) // the sender really holds the voucher's ERC-20 (credited by an earlier receive)
 					}
 				}
@@ -1482,7 +1587,7 @@ func (e *env) generate(nops int) {
 			if rng.Intn(10) == 0 {
 				amt = 0
 			}
-			tok := []string{"F", "N", "U", "V", "X", "A", "N", "V", "N", "U"}[rng.Intn(10)]
+			tok := []string{"F", "N", "U", "V", "X", "A", "N", "V", "N", "U", "W", "Y", "Z", "W", "Y"}[rng.Intn(15)]
 			if tok == "F" || tok == "N" || tok == "U" {
 				// prefer a channel on which the counterparty holds some of the coin
 				for try := 0; try < 3 && e.avail(l, tok) <= 0; try++ {
@@ -1494,7 +1599,7 @@ func (e *env) generate(nops int) {
 					amt = avail + 1 + int64(rng.Intn(50))
 					out.Count("recv:dishonest-counterparty")
 				case avail <= 0:
-					tok = []string{"V", "A", "X"}[rng.Intn(3)]
+					tok = []string{"V", "A", "X", "W", "Y", "Z"}[rng.Intn(6)]
 				case amt > avail || rng.Intn(4) == 0:
 					amt = avail
 				}
